@@ -13,8 +13,8 @@
 
 namespace {
 
-enum Op { PUB = 0, BATCH2, SUBR, SUBAT, COPY, CLOSE, AWAIT0, AWAIT1, READY0, READY1, KICK0, KICK1, LEAVE0, LEAVE1, NOPS };
-static const char *op_names[] = {"pub", "batch2", "sub_recent", "sub_at", "copy0", "close", "await0", "await1", "ready0", "ready1", "kick0", "kick1", "leave0", "leave1"};
+enum Op { PUB = 0, BATCH2, SUBR, SUBAT, COPY, CLOSE, AWAIT0, AWAIT1, READY0, READY1, KICK0, KICK1, LEAVE0, LEAVE1, BATCH0, NOPS };
+static const char *op_names[] = {"pub", "batch2", "sub_recent", "sub_at", "copy0", "close", "await0", "await1", "ready0", "ready1", "kick0", "kick1", "leave0", "leave1", "batch0"};
 static const char *mode_names[] = {"all_values", "skip_if_behind", "skip_to_recent"};
 constexpr long UNLIM = 1000000;
 
@@ -36,6 +36,7 @@ struct Model {
         switch (op) {
             case PUB:
             case BATCH2: return !closed && n < 7;
+            case BATCH0: return !closed && (s[0].parked || s[1].parked);  // publishing an empty range: nothing happens, nobody wakes
             case SUBR:
             case SUBAT: return !s[0].alive || !s[1].alive;
             case COPY: return usable(0) && !s[0].kicked && !s[1].alive;
@@ -110,6 +111,7 @@ struct Model {
                 break;
             case LEAVE0: s[0] = MSub{}; break;
             case LEAVE1: s[1] = MSub{}; break;
+            case BATCH0: break;  // nothing published: state unchanged
         }
     }
 };
@@ -227,6 +229,17 @@ static void run_case(seqx::Runner &R, const Cfg &cfg, const std::vector<int> &se
                     n += 2;
                     pub->publish(&vals[0], &vals[2]);
                     check_woken("publish batch", -1);
+                    break;
+                }
+                case BATCH0: {
+                    int none[1] = {0};
+                    pub->publish(&none[0], &none[0]);
+                    for (int k = 0; k < 2; k++)
+                        if (ms[k].alive && ms[k].parked && res[k].done) {
+                            R.fail("pub/woken-without-data", "step %zu: publishing an empty range resumed subscriber %d (result %d, value %d) although nothing was published and the stream is open", step,
+                                   k, (int)res[k].result, res[k].value);
+                            ok = false;
+                        }
                     break;
                 }
                 case SUBR:
